@@ -24,10 +24,13 @@ def render(components, arrows, rng):
     return "@startuml\n" + "\n".join(lines) + "\n@enduml"
 
 
-def make_case(rng, comps_pool=gen.PLAIN, absent=None, nested=False):
+def make_case(rng, comps_pool=gen.PLAIN, absent=None, nested=False, big=False):
     # now and then the base package is called like a standard library module (a root package `platform`, `code`, ...)
     base = rng.choice(["p", "p", "p", "platform", "code"])
-    kids = rng.sample([c for c in comps_pool if c != base], rng.randint(2, 6))
+    pool = [c for c in comps_pool if c != base]
+    if big:
+        pool = list(dict.fromkeys(pool + ["e", "f", "g", "h", "k", "n", "r", "s", "t", "u"]))
+    kids = rng.sample(pool, rng.randint(9, 12) if big else rng.randint(2, min(6, len(pool))))
     if rng.random() < 0.25:
         # a component named like the base module itself (package p.p): with_base_module("p") must still mean p.p
         kids[rng.randrange(len(kids))] = base
@@ -61,7 +64,7 @@ def make_case(rng, comps_pool=gen.PLAIN, absent=None, nested=False):
             src = rng.choice([n for n in nodes if gen.is_desc(n, f"{base}.{a}")])
             dst = rng.choice([n for n in nodes if gen.is_desc(n, f"{base}.{b}")])
             imps.add((src, dst))
-    for _ in range(rng.choice([0, 0, 1, 1, 2, 3])):
+    for _ in range(rng.choice([0, 0, 1, 1, 2, 3]) if not big else rng.randint(12, 30)):
         imps.add(rng.choice(pairs))
     imps = [e for e in sorted(imps) if e[0] != e[1] and not e[1].startswith(e[0] + ".")]
     mode_only = rng.random() < 0.6
@@ -194,6 +197,16 @@ def judge(ctx, stream, cases):
             if len(ctx.violations) >= 3:
                 return
             continue
+        if dom == "d" and icls == "FAIL" and mcls == "FAIL" and i != m:
+            # the error aggregates the messages of ALL violated pairwise rules (Pta.C07.aggregated_text_eq): the model's lines are
+            # exactly those
+            got, want = set(i[5:].split(";")), set(m[5:].split(";"))
+            ctx.violations.append({"kind": "property-violation",
+                                   "what": f"the aggregated message of the diagram rule does not consist of the messages of all violated pairwise rules: missing {sorted(want - got)[:4]}, extra {sorted(got - want)[:4]}",
+                                   "line": line_for(c)[:3000], "impl": i[:3000], "model": m[:3000]})
+            if len(ctx.violations) >= 3:
+                return
+            continue
         if i != m:
             if len(ctx.broken) < 10:
                 ctx.broken.append({"kind": "correspondence-broken", "what": "correspondence DiagramRule.assert_applies = PtaModel.diagramAssert (verdict + set of message lines)",
@@ -212,6 +225,11 @@ def run(ctx: Ctx):
         rng = ctx.rng(name)
         cases = [make_case(rng, pool) for _ in range(ctx.size(8000, 200000))]
         judge(ctx, s, cases)
+        s.finish()
+    if not ctx.violations:
+        s = Stream(ctx, "large diagrams (9-12 components) over architectures that violate many of the generated rules at once")
+        rng = ctx.rng("big-diagrams")
+        judge(ctx, s, [make_case(rng, gen.PLAIN, absent=False, big=True) for _ in range(ctx.size(300, 5000))])
         s.finish()
     if not ctx.violations:
         s = Stream(ctx, "diagrams drawing a package and one of its sub packages as two components (judged by the rule semantics of the generated rules)")
